@@ -44,6 +44,12 @@ CLAIMS = {
         "Decides for every path of the writer's methods: the sink is called from two sites only, only while no error is parked, inside the panicked bracket, its error is parked; every flush clears the buffer and writes the whole buffer; in the cold path each part of the input is buffered or written exactly once in order (split at capacity - len); the error is taken exactly once and Write::flush reports it; drop flushes unless a sink write panicked; the integer fast path advances by the written length. Canonical decimal text (itoap) and std's write_all loop are trusted.",
         "DESIGN.md §4 C11",
     ),
+    "C13": (
+        "other",
+        "def-use discipline rules over MIR, sibling comparison of loop bodies, exhaustive abstract interpretation of the scanning behaviour over (offset label, byte class)",
+        "The numeric value of the SWAR kernel and of the accumulation loops is value-level and not decided. Decided: every overflowing_* flag reaches the one flag gating the returned Option and no other arithmetic touches the value; the five accumulation steps agree (x10, +/- (byte - '0')); the simple scanners' behaviour (digit class, +1 per digit, a lone minus is not passed over) equals the specification exactly for entry offsets 0 and 1; the fast/cold plumbing (cold tail calls, all-matched constants 8/7, continuation at offset+8, checked conversions, sign counted only if a digit followed).",
+        "DESIGN.md §4 C13",
+    ),
     "C14": (
         "other",
         "unsafe-operation inventory over MIR with guard-dominance patterns per class, field confinement, wrap-before-check rule",
